@@ -768,3 +768,109 @@ func (w *World) fieldStores(fa *ssa.FieldAddr) ([]ssa.Value, bool) {
 	}
 	return out, true
 }
+
+// acquiresOn: fn (or a module function it statically calls with the same object) acquires the mutex field fld of its
+// parameter number idx. Returns the acquiring call's position.
+func (e *Engine) acquiresOn(fn *ssa.Function, idx int, fld string, depth int, seen map[*ssa.Function]bool) (token.Pos, bool) {
+	if fn == nil || len(fn.Blocks) == 0 || idx >= len(fn.Params) || depth > 4 || seen[fn] {
+		return token.NoPos, false
+	}
+	seen[fn] = true
+	pkey := e.keyOf(fn.Params[idx]).String()
+	for _, op := range e.locks(fn).acquires {
+		if op.key == pkey+"."+fld {
+			for _, b := range fn.Blocks {
+				for _, in := range b.Instrs {
+					if c, ok := in.(*ssa.Call); ok {
+						if o2, ok := e.mutexOp(&c.Call); ok && o2.acquire && o2.key == op.key {
+							return c.Pos(), true
+						}
+					}
+				}
+			}
+			return fn.Pos(), true
+		}
+	}
+	for _, b := range fn.Blocks {
+		for _, in := range b.Instrs {
+			ci, ok := in.(ssa.CallInstruction)
+			if !ok {
+				continue
+			}
+			if _, isGo := in.(*ssa.Go); isGo {
+				continue
+			}
+			callee := ci.Common().StaticCallee()
+			if !inModule(callee) {
+				continue
+			}
+			for j, a := range ci.Common().Args {
+				if e.keyOf(a).String() == pkey {
+					if p, ok := e.acquiresOn(callee, j, fld, depth+1, seen); ok {
+						return p, true
+					}
+				}
+			}
+		}
+	}
+	return token.NoPos, false
+}
+
+// reentryRule: sync.Mutex and sync.RWMutex are not re-entrant, not even for readers (a writer queued between two
+// RLock calls of one goroutine blocks the second, and the first is never released). No function acquires a mutex
+// it already holds, and none calls, with the lock held, a function that acquires the mutex of the same object.
+func reentryRule(w *World, r *Report, e *Engine, rule string, fns []*ssa.Function) int {
+	n := 0
+	for _, fn := range fns {
+		if isTestFunc(w, fn) || len(fn.Blocks) == 0 {
+			continue
+		}
+		li := e.locks(fn)
+		for _, b := range fn.Blocks {
+			for _, in := range b.Instrs {
+				ci, ok := in.(ssa.CallInstruction)
+				if !ok {
+					continue
+				}
+				if _, isDefer := in.(*ssa.Defer); isDefer {
+					continue
+				}
+				if _, isGo := in.(*ssa.Go); isGo {
+					continue
+				}
+				held := li.before[in]
+				if len(held) == 0 {
+					continue
+				}
+				if op, ok := e.mutexOp(ci.Common()); ok {
+					if op.acquire {
+						n++
+						_, again := held[op.key]
+						r.check(!again, rule, fn, "acquisition of "+op.key+" with "+held.String()+" held", in.Pos(), "a different lock", "the mutex is acquired while this function already holds it: Go's mutexes are not re-entrant (two read locks deadlock as soon as a writer queues between them)")
+					}
+					continue
+				}
+				callee := ci.Common().StaticCallee()
+				if !inModule(callee) {
+					continue
+				}
+				for k := range held {
+					dot := strings.LastIndex(k, ".")
+					if dot < 0 {
+						continue
+					}
+					base, fld := k[:dot], k[dot+1:]
+					for j, a := range ci.Common().Args {
+						if e.keyOf(a).String() != base {
+							continue
+						}
+						n++
+						pos, acq := e.acquiresOn(callee, j, fld, 0, map[*ssa.Function]bool{})
+						r.check(!acq, rule, fn, "call of "+w.fnName(callee)+" with "+k+" held", in.Pos(), "the callee does not lock the same object", "the callee acquires the same object's mutex at "+w.pos(pos)+" while the caller still holds it: Go's mutexes are not re-entrant (two read locks deadlock as soon as a writer queues between them), every later operation on the object then blocks forever")
+					}
+				}
+			}
+		}
+	}
+	return n
+}
